@@ -338,6 +338,10 @@ def coq_scan_forbidden(files=None):
 
 
 def run_generators():
+    if os.environ.get("VERIF_GEN_FROZEN"):
+        # set only by tools/seedcorpus.py, after it has established that the generators produce exactly the files
+        # that are in coq/Gen for the tree under test (lets seeded trees be checked in parallel without touching coq/Gen)
+        return
     rc, out = sh([sys.executable, os.path.join(VERIF, "tools", "gen_consts.py")], timeout=120)
     if rc != 0:
         raise BuildError("generator", out)
